@@ -23,11 +23,19 @@ exists in the sandbox):
               Integer types up to 32 bits only (no F/D in the emulator, i64 is
               not a RISC-V value class in ppci).
 
-Workload: vlib.irgen modules (types the target can select, C29's open
+Workload: (1) vlib.irgen modules (types the target can select, C29's open
 findings switch the uncovered constructs off through cgmatrix.neutralise and
-the feature filter; cgmatrix.add_pressure forces spills), a hand-written C
-corpus through ``c_to_ir`` and directed register-pressure modules; every
-module at optimisation levels 0/1/2/s (quick: level 0 + one rotating level).
+the feature filter; cgmatrix.add_pressure forces spills) at optimisation
+levels 0/1/2/s (quick: level 0 + one rotating level); (2) the systematic
+operator matrix of vlib.cgmatrix, one tiny function per cell (every binop /
+unop / compare / cast x operand source x consumer, memory addressing forms
+with offsets up to 2^20 -- pointer parameters point into an arena global the
+harness adds --, argument positions 1..10 on caller and callee side,
+phi/loop/pressure/blob cells): a wrong selection pattern is named by its
+cell; quick runs a quarter of the matrix (rotating with the seed), thorough
+all of it; (3) a hand-written C corpus through ``c_to_ir`` and directed
+register-pressure modules around every binary operator (shift, divide ...
+with 4/10/18 other values live, with and without a call).
 
 Oracle = refinterp on the module *after* ``optimize`` (the IR the back-end is
 given); the optimiser itself is C02's concern.  Build failures
@@ -49,9 +57,11 @@ TARGETS = ["x86_64", "riscv", "riscv:rvc"]
 LEVELS = ["0", "1", "2", "s"]
 RULE = ("for x86_64 (native CPU), riscv and riscv:rvc (vlib.rv32emu): vlib.irgen modules restricted to the target's "
         "selectable types (riscv: <= 32-bit integers), with externals, globals, calls, phis, loops, memory-form CFGs "
-        "and cgmatrix.add_pressure (0/6/12/24 live values), a C corpus via c_to_ir and directed pressure modules; "
+        "and cgmatrix.add_pressure (0/6/12/24 live values); the vlib.cgmatrix operator matrix (every binop/unop/compare/"
+        "cast x operand source x consumer, memory forms with pointer parameters into an arena, argument positions; "
+        "quick: 1/4 rotating with the seed); a C corpus via c_to_ir and directed pressure modules; "
         "each optimised at levels 0/1/2/s (quick: 0 + one rotating), compiled by ir_to_object, linked by ppci with a "
-        "generated layout, every function called on 3-4 argument vectors through the target's calling convention; "
+        "generated layout, every function called on 3-5 argument vectors through the target's calling convention; "
         "return value, bytes of all globals and the external-call trace compared with vlib.refinterp run on the same "
         "(optimised) module; evaluation = one executed (function, vector, level) compared; non-trivial = reference "
         "run with >= 10 IR steps and >= 1 branch, distinct by (module hash, function, vector, level, target)")
@@ -386,8 +396,6 @@ class Target:
             mon = RA._c05_mon
             try:
                 mon.obs["frames"] += 1
-                if frame.stacksize and any(getattr(i, "fprel", False) or "spill" in type(i).__name__.lower() for i in frame.instructions):
-                    pass
                 if getattr(ra, "_c05_spilled", False):
                     mon.obs["spill_frames"] += 1
                 for ins in frame.instructions:
@@ -465,19 +473,32 @@ def type_name(ty):
 
 
 def externals_of(m):
+    """[(name, [argument kind names], result kind name, external)]; kind "blob" = passed by value in memory."""
     from ppci import ir
 
     out = []
     for e in m.externals:
         if isinstance(e, ir.ExternalSubRoutine):
-            ak = type_name(e.argument_types[0]) if e.argument_types else "none"
+            aks = []
+            for t in e.argument_types:
+                k = type_name(t)
+                aks.append(k if k in KINDS else "blob")
             rk = type_name(e.return_ty) if isinstance(e, ir.ExternalFunction) else "none"
-            if ak not in KINDS:
-                ak = "ptr"          # blob by value: the bytes are not compared through the trace
-            if rk not in KINDS:
-                rk = "none"
-            out.append((e.name, ak, rk, e))
+            out.append((e.name, aks, rk if rk in KINDS else "none", e))
     return out
+
+
+def norm_ext_arg(word, kind):
+    """Observable form of one external-call argument word (same shape as refinterp's trace entries)."""
+    if word is None or kind in ("ptr", "blob", "none"):
+        return None
+    if kind == "f32":
+        b = word & 0xFFFFFFFF
+        return "nan" if (b & 0x7F800000) == 0x7F800000 and b & 0x7FFFFF else "f32:%08x" % b
+    if kind == "f64":
+        b = word & 0xFFFFFFFFFFFFFFFF
+        return "nan" if (b & 0x7FF0000000000000) == 0x7FF0000000000000 and b & 0xFFFFFFFFFFFFF else "f64:%016x" % b
+    return wrap_int(word, kind)
 
 
 def wrap_int(v, kind):
@@ -561,6 +582,7 @@ def exec_rv(tgt, linked, m, calls, steps_of):
         saved = {}
         nstack = 0
         for loc, p, a in zip(locs, f.arguments, c["args"]):
+            a = mach_arg(linked, a, 32)
             w = wrap_int(int(a), type_name(p.ty) if p.ty is not ir.ptr else "u32") & 0xFFFFFFFF
             if isinstance(loc, Register):
                 mach.x[loc.num] = w
@@ -586,15 +608,20 @@ def exec_rv(tgt, linked, m, calls, steps_of):
                 break
             st = mach.run(left)
             if st == "fault:ebreak" and mach.pc in ext_by_addr:
-                name, ak, rk, e = ext_by_addr[mach.pc]
+                name, aks, rk, e = ext_by_addr[mach.pc]
                 count += 1
                 argv = []
-                if ak != "none":
-                    eloc = tgt.arch.determine_arg_locations(list(e.argument_types))[0]
-                    raw = mach.x[eloc.num]
-                    argv.append(wrap_int(raw, ak if ak != "ptr" else "u32"))
-                trace.append((name, argv[0] if argv else None))
-                rv = default_external(name, argv, count, e.return_ty if rk != "none" else None)
+                elocs = tgt.arch.determine_arg_locations(list(e.argument_types))
+                for ak, eloc in zip(aks, elocs):
+                    if ak == "blob":
+                        argv.append(None)
+                    elif isinstance(eloc, Register):
+                        argv.append(norm_ext_arg(mach.x[eloc.num], ak if ak != "ptr" else "ptr"))
+                    else:
+                        argv.append(norm_ext_arg(int.from_bytes(mach.read_mem(mach.x[2] + eloc.offset, 4), "little"), ak))
+                trace.append((name, argv))
+                rv = default_external(name, [a for a in argv if isinstance(a, int)], count,
+                                      e.return_ty if rk != "none" else None)
                 for rn in range(10, 18):          # caller-saved registers of ppci's convention
                     mach.x[rn] = (0xC0DE0000 + rn * 0x111) & 0xFFFFFFFF
                 for rn in (5, 6, 7, 28, 29, 30, 31):
@@ -636,14 +663,15 @@ def exec_x86(tgt, linked, m, calls, steps_of):
     for c in calls:
         f = c["f"]
         kinds = [type_name(p.ty) for p in f.arguments]
-        ireg, freg, stack = x86probe.sysv_classify(kinds, c["args"], noise=0x5EED0000 + c["noise"])
+        ireg, freg, stack = x86probe.sysv_classify(kinds, [mach_arg(linked, a, 64) for a in c["args"]],
+                                                   noise=0x5EED0000 + c["noise"])
         if stack:
             tgt.mon.obs["stack_passed_calls"] += 1
         script.append({"id": c["id"], "fn": linked.get_symbol_value(f.name), "ireg": ireg, "freg": freg, "stack": stack,
                        "dumps": [(a, n) for a, n in gaddr.values()]})
     raw = x86probe.run_image(mems, [(e[0], e[1], e[2]) for e in exts], script, tag="c05")
     out = {}
-    ext_kind = {e[0]: e[1] for e in exts}
+    ext_kinds = {e[0]: e[1] for e in exts}
     for c in calls:
         r = raw.get(c["id"]) or {"status": "harness", "reason": "no result"}
         if r["status"] != "ok":
@@ -652,8 +680,8 @@ def exec_x86(tgt, linked, m, calls, steps_of):
                             "ret": None, "notes": []}
             continue
         res = {"status": "ok", "steps": 0, "globals": {}, "notes": [], "ret": r["rax"], "xmm0": r["xmm0"],
-               "trace": [(n, wrap_int(a, ext_kind[n]) if ext_kind.get(n, "none") not in ("none", "ptr", "f32", "f64") else None)
-                         for n, a in r["trace"]]}
+               "trace": [(n, [norm_ext_arg(w, k) for w, k in zip(list(ws) + [None] * len(ext_kinds.get(n, [])),
+                                                                  ext_kinds.get(n, []))]) for n, ws in r["trace"]]}
         tgt.mon.obs["callee_saved_checked"] += 1
         if not r["callee_saved_ok"]:
             res["notes"].append("callee-saved registers (rbx, rbp, r12-r15) changed")
@@ -752,12 +780,18 @@ def compare(tgt, linked, f, ref, got):
                                 g, off, val, it[2], it[3], (base + it[3]) & pmask))
                 off += tgt.ptr_size
     # external trace
-    want_trace = [(n, (a[0] if a else None)) for n, a in ref.trace]
-    got_trace = [(n, a) for n, a in got["trace"]]
-    norm_want = [(n, a if isinstance(a, int) else None) for n, a in want_trace]
-    norm_got = [(n, a if isinstance(w[1], int) else None) for (n, a), w in zip(got_trace, norm_want + [(None, None)] * len(got_trace))]
-    if len(got_trace) != len(want_trace) or norm_got != norm_want:
+    def simple(a):
+        return a if isinstance(a, (int, str)) and not isinstance(a, bool) else None
+
+    want_trace = [(n, [simple(a) for a in args]) for n, args in ref.trace]
+    got_trace = []
+    for (n, args), w in zip(got["trace"], want_trace + [(None, [])] * len(got["trace"])):
+        # an argument the reference cannot name (pointer, blob) is not compared
+        got_trace.append((n, [a if k < len(w[1]) and w[1][k] is not None else None for k, a in enumerate(args)]))
+    if len(got_trace) != len(want_trace) or got_trace != want_trace:
         diffs.append("external calls %r, reference %r" % (got_trace[:5], want_trace[:5]))
+    tgt.mon.obs["external_arguments_compared"] = tgt.mon.obs.get("external_arguments_compared", 0) + sum(
+        1 for _, args in want_trace for a in args if a is not None)
     tgt.mon.obs["external_calls_compared"] += len(want_trace)
     return diffs
 
@@ -766,14 +800,52 @@ def compare(tgt, linked, f, ref, got):
 # one module through all levels
 
 
-def module_functions(m):
-    return [f for f in m.functions]
+ARENA = "c05_arena"
+ARENA_SIZE = 4096
 
 
 def callable_function(f):
     from ppci import ir
 
-    return all(p.ty is not ir.ptr and not isinstance(p.ty, ir.BlobDataTyp) for p in f.arguments)
+    return all(not isinstance(p.ty, ir.BlobDataTyp) for p in f.arguments)
+
+
+def add_arena(m):
+    """A global the harness points pointer arguments into ({"arena": offset} in an argument vector)."""
+    from ppci import ir
+
+    data = bytes((i * 37 + 11) & 0xFF for i in range(ARENA_SIZE))
+    m.add_variable(ir.Variable(ARENA, ir.Binding.GLOBAL, ARENA_SIZE, 16, value=(data,)))
+
+
+def ref_args(it, vec):
+    """Argument vector for vlib.refinterp: pointer arguments become (region, offset) pairs that resolve the arena
+    region of the run in progress."""
+    from vlib.refinterp import Ptr
+
+    class ArenaPtr(Ptr):
+        __slots__ = ("interp",)
+        region = property(lambda self: self.interp.gregions[ARENA])
+
+        def __init__(self, interp, off):
+            self.interp = interp
+            self.off = off
+
+    out = []
+    for a in vec:
+        if isinstance(a, dict):
+            out.append(ArenaPtr(it, a["arena"]) if "arena" in a else Ptr(None, a["num"]))
+        else:
+            out.append(a)
+    return out
+
+
+def mach_arg(linked, a, bits):
+    if isinstance(a, dict):
+        if "arena" in a:
+            return (linked.get_symbol_value(ARENA) + a["arena"]) & ((1 << bits) - 1)
+        return a["num"] & ((1 << bits) - 1)
+    return a
 
 
 def run_module(tgt, mon, make_module, argvecs_of, levels, case, pressure=0, drop_avoided=False):
@@ -829,7 +901,7 @@ def run_module(tgt, mon, make_module, argvecs_of, levels, case, pressure=0, drop
             if not callable_function(f) or f.name not in argv:
                 continue
             for k, vec in enumerate(argv[f.name]):
-                ref = it.run(f.name, vec, max_steps=60000)
+                ref = it.run(f.name, ref_args(it, vec), max_steps=60000)
                 if ref.status != "ok":
                     mon.discard("reference-%s" % ref.status)
                     continue
@@ -1114,6 +1186,44 @@ def run_directed(spec, mon, tgt):
         run_module(tgt, mon, make, argvecs, ["0", "2"], case, pressure=n_live)
 
 
+def matrix_args(r, f, cell, n):
+    """Argument vectors of a matrix cell function; pointer parameters point into the arena so that the address the
+    cell computes (parameter + constant / + register) stays inside it."""
+    from ppci import ir
+    from vlib import irgen
+
+    vecs = []
+    for k in range(n):
+        vec = []
+        nptr = 0
+        q = 0
+        for p in f.arguments:
+            if p.ty is ir.ptr:
+                addr = (cell or {}).get("addr") if (cell or {}).get("k") == "mem" else None
+                base = 1024 + 16 * r.randrange(0, 64)
+                if addr == "param":
+                    vec.append({"arena": base})
+                elif addr == "param+const":
+                    vec.append({"arena": base - cell.get("off", 8)})
+                elif addr == "param+reg":
+                    if nptr == 0:
+                        q = 8 * r.randrange(1, 100)
+                        vec.append({"arena": base - q})
+                    else:
+                        vec.append({"num": q})
+                else:
+                    vec.append({"num": r.choice([0, 1, 8, 4096, 0x7FFFFFF0, 0x12345678])})
+                nptr += 1
+            elif p.ty.is_integer:
+                vec.append(irgen.boundary_int(r, p.ty) if k else r.choice([0, 1, 2, 3]))
+            else:
+                import struct
+                v = r.choice([0.0, 1.0, -1.5, 2.5, 100.25, -0.0, 1e6, 3.0e-2])
+                vec.append(struct.unpack("<f", struct.pack("<f", v))[0] if p.ty.bits == 32 else v)
+        vecs.append(vec)
+    return vecs
+
+
 def run_matrix(spec, mon, tgt):
     """The systematic operator matrix of vlib.cgmatrix (every binop/unop/compare/cast x operand source x consumer,
     memory forms, argument positions, phi/loop/pressure cells): each cell is one tiny function; a wrong instruction
@@ -1137,11 +1247,12 @@ def run_matrix(spec, mon, tgt):
                 mon.discard("matrix-builder-error:%s" % type(e).__name__)
                 return None
             mon.obs["neutralised_constructs"] += rewrite_constants(mb.m, tgt.const_preds)
+            add_arena(mb.m)
             return mb.m
 
-        def argvecs(m, bi=bi):
+        def argvecs(m, bi=bi, names=names):
             r = rng(spec["seed"], PROPERTY, "matrix/%s/%d/%d/%d" % (tgt.name, spec["offset"], spec["sub"], bi))
-            return {f.name: irgen.gen_args(r, m, f.name, 4) for f in m.functions if callable_function(f)}
+            return {f.name: matrix_args(r, f, names.get(f.name), 4) for f in m.functions if callable_function(f)}
 
         if spec["tier"] == "thorough":
             levels = ["0", "2"] + (["1", "s"] if (bi // BATCH) % 4 == spec["seed"] % 4 else [])
